@@ -176,7 +176,11 @@ def hl_empty(code, lang, attrs):
 HLS = [None, hl_pre, hl_plain, hl_empty]
 LANGP = ["language-", "", "<&\" x"]
 COMBOS = list(itertools.product((False, True), (False, True), range(3), range(4)))
-OPT_PRESETS = [C.cfg("commonmark"), C.cfg("js-default", {"typographer": True}), C.cfg("zero", enable=["fence", "newline", "image", "emphasis"])]
+OPT_PRESETS = [C.cfg("commonmark"), C.cfg("js-default", {"typographer": True}), C.cfg("zero", enable=["fence", "newline", "image", "emphasis"]),
+               # line ends that stay inside text tokens (newline rule off): no softbreak token, so no option applies
+               C.cfg("commonmark", disable=["newline"]), C.cfg("zero", enable=["fence", "image", "entity", "heading"])]
+# line ends and line-end look-alikes inside inline content: only a softbreak/hardbreak TOKEN is a break
+NL_ATOMS = ["a", "\n", "  \n", "\\\n", "&#10;", "&#xA;", "&NewLine;", "&#13;", "\u2028", "\x0b", "<br>", "*", "# "]
 FENCE_DOCS = ["![first\nsecond](u)\n", "[![a\nb](u)](v) c\nd\n", "```py\nx<y\n```\n", "``` py x=1 &amp; \\*\n&\n```\n", "~~~\n\n~~~\n", "```&#112;y\na\n", "   ```\tsh\n   b\n   ```\n",
               "a\nb  \nc\\\nd\n", "![a\nb](u 't')\n", "- a\nb\n\n---\n\n1. c\n", "> ```x\n> y\n", "<div>\n```z\nw\n```\n</div>\n",
               "```<pre\nq\n```\n"]
@@ -201,6 +205,8 @@ def opt_mds(pi):
                 md = MarkdownIt(base["preset"], {**(base.get("opts") or {}), **o})
                 if base.get("enable"):
                     md.enable(base["enable"])
+                if base.get("disable"):
+                    md.disable(base["disable"])
             else:
                 # ... and item assignment after construction
                 md = C.build(base, fresh=True)
@@ -238,6 +244,7 @@ def sub_opts(pi, src, acc):
 # ---- driver --------------------------------------------------------------------------------------------------
 def opt_docs():
     out = list(S.docs(S.FREE_LINES, 2, both_endings=False)) + list(S.strings(S.ATOMS, 2)) + I.core_docs() + FENCE_DOCS
+    out += list(S.strings(NL_ATOMS, 3))
     seen, res = set(), []
     for d in out:
         if d not in seen:
@@ -249,7 +256,7 @@ def opt_docs():
 def bounds(tier):
     th = tier == "thorough"
     return {"atoms": ATOMS, "L": 5 if th else 4, "atoms_with_breaks": ATOMS_NL if th else None, "ctx_configs": CTX_CFGS,
-            "option_combinations": len(COMBOS), "option_presets": OPT_PRESETS, "option_docs": len(opt_docs())}
+            "option_combinations": len(COMBOS), "option_presets": OPT_PRESETS, "option_docs": len(opt_docs()), "line_end_atoms": NL_ATOMS, "L_line_end": 3}
 
 
 def shards(tier):
